@@ -541,24 +541,29 @@ func c15Wrap(c *core.Ctx) {
 // ---- position window of the variant writers
 
 func c15WindowFilter(c *core.Ctx) {
-	var vs []*eval.StructVal
+	// an insertion in front of the first reference base has position 0: any --start >= 1 excludes it
+	vs := []*eval.StructVal{mkVariant(c, "ins", 0, 2, "", "")}
 	for p := int64(1); p <= 5; p++ {
 		vs = append(vs, mkVariant(c, "del", p, 1, "", ""))
 	}
 	feed := func() []eval.Value { return []eval.Value{mkAnno(c, "q0", 0, vs...)} }
 	want := func(s, e int64) []string {
 		var out []string
-		for p := int64(1); p <= 5; p++ {
+		for p := int64(0); p <= 5; p++ {
 			if (s < 1 || p >= s) && (e < 1 || p <= e) {
-				out = append(out, fmt.Sprintf("del:%d:1", p))
+				if p == 0 {
+					out = append(out, "ins:0:2")
+				} else {
+					out = append(out, fmt.Sprintf("del:%d:1", p))
+				}
 			}
 		}
 		return out
 	}
 	var badW, badA []string
 	n := 0
-	for _, s := range []int64{-1, 2, 4} {
-		for _, e := range []int64{-1, 2, 4} {
+	for _, s := range []int64{-1, 1, 2, 4, 5} {
+		for _, e := range []int64{-1, 1, 2, 4, 5} {
 			if s > 0 && e > 0 && s > e {
 				continue
 			}
